@@ -149,6 +149,7 @@ class Ctx:
             raise Infeasible()
         self._add(t)
         self.known[t.get_id()] = True
+        self.keepalive.append(t)
         r = self._check()
         if r == z3.unsat:
             raise Infeasible()
@@ -214,6 +215,7 @@ class Ctx:
         self._add(t if val else nt)
         self.known[tid] = val
         self.known[nt.get_id()] = not val
+        self.keepalive.append((t, nt))  # ids are only unique among live terms
         return val
 
     def choose(self, n, tag=None):
